@@ -39,7 +39,8 @@ PREFIXES = ['AT', 'A', 'GC', 'ATG', 'C', 'TA']
 
 
 def envs(tier):
-	return [dict()]
+	# every fourth run under `python -O`: results must not depend on assert statements being executed
+	return [dict(), dict(), dict(), dict(env={'PYTHONOPTIMIZE': '1'})]
 
 
 def worker_init(args):
